@@ -223,13 +223,13 @@ func famEntryJSON(x *lc) bool {
 
 // "grown-receiver": value j with one more element in every container (one more row, polynomial, digit, key ...)
 // than any encoding of j has, so that the receiver is larger than the incoming object at every nesting level.
-// "decoded-two": (thorough) a zero value that decoded value j, then value k, for all ordered pairs
+// "decoded-two": a zero value that decoded value j, then value k, for all ordered pairs
 var historyKinds = []string{"fresh", "constructed-other", "decoded-other", "grown-receiver", "decoded-two"}
 
 func famReceiver(t *lc) {
-	nh := 4
-	if t.c.Tier == "thorough" {
-		nh = 5
+	nh := 5
+	if t.c.Tier == "quick" && t.e.heavy {
+		nh = 4 // (two-step histories of parameter sets cost seconds: thorough only)
 	}
 	h := t.c.Choose(nh, "receiver-history")
 	t.c.Cover("history", historyKinds[h])
